@@ -4,6 +4,8 @@
 //! segment-table comparison against the independent decoder (C02's agcref).
 
 use super::{Ctx, Prop, Tier};
+use crate::engines::pipeline::{self, PipeSpec};
+use crate::simrun::{run_plain, Outcome};
 use crate::engines::catalog::{self, CatalogSpec};
 use crate::report::{RunReport, Violation};
 use crate::seed;
@@ -49,24 +51,141 @@ fn report(spec: &CatalogSpec, index: u64, want_sample: bool) -> RunReport {
     r
 }
 
+/// Part 1 inside this check: a simulated create, then the catalogue as the reader's per-sample
+/// queries return it - every sample asked in a seeded order on ONE handle (so that lazily loaded
+/// metadata batches are reached from any starting point) and every third sample on a fresh handle.
+fn pipeline_spec(run_seed: u64) -> PipeSpec {
+    let mut s = pipeline::generate(run_seed);
+    let mut r = seed::Rng::new(run_seed ^ 0xCA7);
+    // sample counts around the pack cardinality and around the 50-sample metadata batch
+    s.gen.n_samples = match r.below(6) {
+        0 => r.range(1, 4) as u32,
+        1 | 2 => r.range(5, 30) as u32,
+        3 => r.range(49, 53) as u32,
+        4 => r.range(60, 110) as u32,
+        _ => s.gen.n_samples,
+    };
+    s.gen.max_len = if s.gen.n_samples > 20 { 60 } else { s.gen.max_len.min(600) };
+    s.gen.ref_contigs = s.gen.ref_contigs.min(4);
+    s.cfg.pack_cardinality = *r.pick(&[2u32, 3, 5, 10, 13, 50, 50, 64]);
+    let nfiles = if s.cfg.single_file { 1 } else { s.gen.n_samples as usize };
+    s.presentations = vec![crate::gen::fasta::Presentation::plain(); nfiles];
+    s
+}
+
+fn pipeline_report(spec: &PipeSpec, index: u64) -> RunReport {
+    let mut r = RunReport::default();
+    r.evaluations = 1;
+    r.count("pipeline_catalogues", 1);
+    let (w, run) = pipeline::execute_batch(std::slice::from_ref(spec)).pop().unwrap();
+    r.digest = run.trace_digest;
+    r.nontrivial = run.tasks >= 2 && run.preemptions >= 1;
+    if !(matches!(run.outcome, Outcome::Done) && matches!(run.create, Some(Ok(())))) {
+        r.count("pipeline_create_not_ok", 1);
+        return r;
+    }
+    let bytes = run.world.get_file(pipeline::ARCHIVE_PATH).unwrap_or_default();
+    let want: Vec<(String, Vec<String>)> = w.samples.iter().map(|s| (s.name.clone(), s.contigs.iter().map(|c| c.0.trim().to_string()).collect())).collect();
+    let mut order: Vec<usize> = (0..want.len()).collect();
+    let mut rr = seed::Rng::new(seed::fnv64(&bytes) ^ 0x0DD);
+    for i in (1..order.len()).rev() {
+        let j = rr.below(i as u64 + 1) as usize;
+        order.swap(i, j);
+    }
+    let mut world = ragc_common::verif::World::new();
+    world.knobs.bufreader_cap = *rr.pick(&[8192usize, 512, 64]);
+    world.put_file(pipeline::ARCHIVE_PATH, bytes);
+    let want2 = want.clone();
+    let (res, _) = run_plain(world, move || -> Result<(), (String, String)> {
+        use ragc_core::{Decompressor, DecompressorConfig};
+        let open = || Decompressor::open(pipeline::ARCHIVE_PATH, DecompressorConfig { verbosity: 0 }).map_err(|e| ("pipeline-open-failed".to_string(), format!("{e:#}")));
+        let mut d = open()?;
+        let listed = d.list_samples();
+        let names: Vec<String> = want2.iter().map(|s| s.0.clone()).collect();
+        if listed != names {
+            return Err(("pipeline-sample-list".into(), format!("listed {} samples, {} were added; first difference at {:?}", listed.len(), names.len(), listed.iter().zip(names.iter()).position(|(a, b)| a != b))));
+        }
+        for (n, &si) in order.iter().enumerate() {
+            let (s, contigs) = &want2[si];
+            let got = d.list_contigs(s).map_err(|e| ("pipeline-contig-names".to_string(), format!("list_contigs({s:?}) as query #{n} on one handle: {e:#}")))?;
+            if &got != contigs {
+                return Err(("pipeline-contig-names".into(), format!("list_contigs({s:?}) as query #{n} on one handle returned {} names {:?}.., {} were added {:?}..", got.len(), got.first(), contigs.len(), contigs.first())));
+            }
+            if n % 3 == 0 {
+                let mut f = open()?;
+                let got = f.list_contigs(s).map_err(|e| ("pipeline-contig-names".to_string(), format!("list_contigs({s:?}) on a fresh handle: {e:#}")))?;
+                if &got != contigs {
+                    return Err(("pipeline-contig-names".into(), format!("list_contigs({s:?}) on a fresh handle returned {} names {:?}.., {} were added {:?}..", got.len(), got.first(), contigs.len(), contigs.first())));
+                }
+            }
+        }
+        Ok(())
+    });
+    let viol = match res {
+        Ok(Ok(())) => None,
+        Ok(Err(v)) => Some(v),
+        Err(p) => Some(("panic".to_string(), format!("catalogue queries after a simulated create panicked: {p}"))),
+    };
+    r.count("pipeline_samples", want.len() as u64);
+    if want.len() > 50 {
+        r.count("probe.pipeline_multi_batch_metadata", 1);
+    }
+    if want.len() as u32 > spec.cfg.pack_cardinality {
+        r.count("probe.more_samples_than_pack_cardinality", 1);
+    }
+    if let Some((class, detail)) = viol {
+        let mut e = spec.clone();
+        e.sched = crate::sched::SchedSpec { policy: crate::sched::Policy::Replay { choices: run.choices.clone() }, seed: spec.sched.seed };
+        r.violations.push(Violation {
+            property: "C03".into(),
+            class,
+            detail,
+            spec: serde_json::json!({"pipeline": e}),
+            engine: "pipeline-sim (catalogue)".into(),
+            index,
+            event_log_digest: r.digest,
+        });
+    }
+    r
+}
+
+/// one run index in 96 is a pipeline catalogue run
+fn is_pipeline(index: u64) -> bool {
+    // hashed, so that these (expensive) runs spread evenly over the worker processes
+    (index.wrapping_mul(0x9E37_79B9_7F4A_7C15) >> 33) % 96 == 0
+}
+
 impl Prop for C03 {
     fn id(&self) -> &'static str { "C03" }
     fn engine(&self) -> &'static str { "catalog-sim" }
     fn level(&self) -> &'static str { "exploration" }
     fn rule(&self) -> &'static str {
-        "each evaluation = one seeded catalogue (1..130 samples; adversarial contig names: 1..n space-separated fields, equal/unequal field lengths, runs >100, empty fields, tabs, shared subsets of fields with the previous name; descriptor tables with arbitrary group ids, in-group ids that repeat/go back/are 0/jump, lengths near and far from segment_size+k) registered sample by sample or (35%) interleaved - a sample resumed after contigs of other samples, as when a later input file continues an earlier sample -, stored through Archive on the sim disk in 50-sample batches (benign short reads/writes, EINTR, tiny buffers in 40% of runs), closed, reopened, loaded batch by batch and compared with the table. distinct_nontrivial = distinct catalogue digests with >=2 names."
+        "each evaluation = one seeded catalogue (1..130 samples; adversarial contig names: 1..n space-separated fields, equal/unequal field lengths, runs >100, empty fields, tabs, shared subsets of fields with the previous name; descriptor tables with arbitrary group ids, in-group ids that repeat/go back/are 0/jump, lengths near and far from segment_size+k) registered sample by sample or (35%) interleaved - a sample resumed after contigs of other samples, as when a later input file continues an earlier sample -, stored through Archive on the sim disk in 50-sample batches (benign short reads/writes, EINTR, tiny buffers in 40% of runs), closed, reopened, loaded batch by batch and compared with the table; one evaluation in 96 is instead a simulated create (1..110 samples, pack cardinality 2..64) followed by list_samples and per-sample list_contigs in a seeded order on one handle and on fresh handles, compared with what was added. distinct_nontrivial = distinct catalogue digests with >=2 names."
     }
     fn runs(&self, tier: Tier) -> u64 {
         match tier { Tier::Quick => 400_000, Tier::Thorough => 20_000_000 }
     }
     fn run_chunk(&self, ctx: &Ctx, indices: &[u64]) -> Vec<RunReport> {
-        indices.iter().map(|&i| report(&catalog::generate(seed::run_seed(ctx.base_seed ^ 0xC03, i)), i, i < 2)).collect()
+        indices
+            .iter()
+            .map(|&i| {
+                let rs = seed::run_seed(ctx.base_seed ^ 0xC03, i);
+                if is_pipeline(i) { pipeline_report(&pipeline_spec(rs), i) } else { report(&catalog::generate(rs), i, i < 2) }
+            })
+            .collect()
     }
     fn replay(&self, _ctx: &Ctx, spec: &Value) -> RunReport {
+        if let Some(p) = spec.get("pipeline") {
+            let p: PipeSpec = serde_json::from_value(p.clone()).expect("bad C03 pipeline spec");
+            return pipeline_report(&p, 0);
+        }
         let spec: CatalogSpec = serde_json::from_value(spec.clone()).expect("bad C03 spec");
         report(&spec, 0, false)
     }
     fn shrink(&self, spec: &Value) -> Vec<Value> {
+        if let Some(p) = spec.get("pipeline") {
+            return super::c01::shrink_pipe_public(p).into_iter().map(|v| serde_json::json!({"pipeline": v})).collect();
+        }
         let Ok(spec) = serde_json::from_value::<CatalogSpec>(spec.clone()) else { return vec![] };
         let mut out = Vec::new();
         let n = spec.samples.len();
